@@ -132,6 +132,28 @@ class SymKernel(object):
         bad = [n for n in self.written_objects() if not n.startswith(tuple(allowed_prefixes))]
         self.env.check(not bad, label + (" [written: %s]" % ", ".join(bad) if bad else ""))
 
+    def callback(self, name, fn, nargs_bytes):
+        """function pointer argument served by Python: fn(list of byte-element lists) -> (return value, {arg index: bytes
+        to write}); nargs_bytes = [(arg index, length, is_output), ...] describes the pointer arguments"""
+        def stub(mach, a):
+            ins = []
+            for idx, n, is_out in nargs_bytes:
+                if is_out:
+                    ins.append(None)
+                    continue
+                mach._check(a[idx], n, False)
+                ins.append([mach._byte(*mach._at(a[idx], i)) for i in range(n)])
+            rv, outs = fn(ins)
+            for idx, data in outs.items():
+                from vlib.pysym import core as _pc
+                data = _pc.to_elems(data)
+                mach._check(a[idx], len(data), True)
+                for i, x in enumerate(data):
+                    mach._store_raw(a[idx].obj, a[idx].off + i, 1, x)
+            return rv
+        self.m.stubs[name] = stub
+        return self.exe.Fn(name)
+
     def field_off(self, struct, idx):
         from . import ir
         t = self.m.mod.structs[struct]
@@ -319,7 +341,7 @@ class RealKernel(object):
                 argv.append(ctypes.c_void_p(a.addr()))
             elif a is None:
                 argv.append(ctypes.c_void_p(0))
-            elif isinstance(a, ctypes._SimpleCData) or hasattr(a, '_type_') or hasattr(a, '_fields_'):
+            elif isinstance(a, (ctypes._SimpleCData, ctypes._CFuncPtr)) or hasattr(a, '_type_') or hasattr(a, '_fields_'):
                 argv.append(a)
             else:
                 argv.append(ctypes.c_uint64(int(a) & 0xFFFFFFFFFFFFFFFF))
@@ -413,6 +435,21 @@ class RealKernel(object):
 
     def ptr_slot(self):
         return self.buf(bytes(8), True, 'pResult')
+
+    def callback(self, name, fn, nargs_bytes):
+        nargs = max(i for i, _, _ in nargs_bytes) + 1
+        FT = ctypes.CFUNCTYPE(ctypes.c_int, *([ctypes.c_void_p] * nargs))
+
+        def f(*a):
+            ins = [None if is_out else list(ctypes.string_at(a[idx], n)) for idx, n, is_out in nargs_bytes]
+            rv, outs = fn(ins)
+            for idx, data in outs.items():
+                data = bytes(data)
+                ctypes.memmove(a[idx], data, len(data))
+            return rv
+        cb = FT(f)
+        self.bufs_keep = getattr(self, 'bufs_keep', []) + [cb]
+        return cb
 
     def block_cipher(self, name, key, block_len):
         """real BlockBase whose callbacks call the library's ECB primitive"""
